@@ -1323,7 +1323,9 @@ impl TheRing<'_> {
                     Ok(session_key) => {
                         skesk_session_keys.push((i, session_key));
                         result.message_password[i] = InnerRingResult::Ok;
-                        break;
+                        if abort_early {
+                            break;
+                        }
                     }
                     Err(_err) => {
                         result.message_password[i] = InnerRingResult::Invalid;
